@@ -85,7 +85,7 @@ def _unit_text(kind, unit):
 
 
 DEFAULT_OPT = {"api": "number", "impl": False, "fsty": "g", "xty": "float", "uname": "", "ucv": {"from": "", "to": ""},
-               "tbl": ""}
+               "tbl": "", "pset": ""}
 TABLE_KEYS = ["H2O", "H+", "OH-"]      # substances of the per-substance table (rows in this order)
 
 
@@ -142,12 +142,14 @@ def _input_events(spec, opt, utext, fname, uname, src):
     return ev
 
 
-def _expected_unit_text(fn, printer, unit):
+def _expected_unit_text(fn, printer, unit, pset=""):
     """What the unit renders to on its own in the presentation at hand."""
     if unit is None or fn == "uncert_plain":
         return ""
     if fn == "table":
         return _unit_text("html", unit)
+    if fn == "plain" and pset == "unitfmt":
+        return "[%s]" % unit.dimensionality
     if printer in ("string", "html"):
         return str(unit.dimensionality)
     if printer == "unicode":
@@ -184,7 +186,7 @@ def _call(spec, evout):
         xv = _pq().UncertainQuantity(x, unit, abs(x) * 0.01)
     printer = {"plain": "string", "rxn-unicode": "unicode", "rxn-latex": "latex", "rxn-html": "html"}.get(
         fn, spec.get("printer") if fn == "arrh" else None)
-    utext = _expected_unit_text(fn, printer, unit)
+    utext = _expected_unit_text(fn, printer, unit, opt["pset"])
     ev = _input_events(spec, opt, utext, fname, uname, src)
     evout.extend(ev)
     lexkind = fn
@@ -202,12 +204,21 @@ def _call(spec, evout):
         else:
             param = xv if opt["xty"] == "uq" else (xv * unit if unit is not None else xv)
             printer = {"plain": "string", "rxn-unicode": "unicode", "rxn-latex": "latex", "rxn-html": "html"}[fn]
-        r = Reaction({"A": 1}, {"B": 1}, param, checks=())
+        pset = opt["pset"]
+        r = Reaction({"A": 1}, {"B": 1}, param, checks=(), name="r7" if pset == "named" else None)
         utext = ""
         if printer == "string":
             kw = {} if (opt["impl"] or fn == "arrh") else {"magnitude_fmt": lambda v, n=spec["n"]: ("%%.%dg" % n) % v}
-            s = r.string(with_param=True, **kw)
             sep = "; "
+            if pset == "unitfmt":
+                kw["unit_fmt"] = lambda dim: "[%s]" % dim
+            elif pset == "sep":
+                kw["Reaction_param_separator"] = sep = " | "
+            elif pset == "named":
+                kw["with_name"] = True
+            s = r.string(with_param=True, **kw)
+            if pset == "named" and s.endswith(sep + "r7"):
+                s = s[:-len(sep + "r7")]          # the name follows the parameter
             lexkind = "plain"
             if unit is not None:
                 utext = _unit_text("plain", unit)
@@ -236,21 +247,33 @@ def _call(spec, evout):
         from collections import OrderedDict
         from chempy import Substance
         from chempy.printing.table import as_per_substance_html_table
-        substances = OrderedDict((k, Substance.from_formula(k)) for k in TABLE_KEYS)
-        vals = [(_typed(v, opt["xty"]) * unit if unit is not None else _typed(v, opt["xty"])) for v in spec["tvals"]]
-        pairs = list(zip(TABLE_KEYS, vals))
         perm = opt["tbl"]
-        if perm == "reversed":
+        # rows are looked up by the KEYS of the substances mapping; with "alias" they differ from the names
+        tkeys = ["water", "proton", "hydroxide"] if perm == "alias" else list(TABLE_KEYS)
+        substances = OrderedDict((k, Substance.from_formula(f)) for k, f in zip(tkeys, TABLE_KEYS))
+        vals = [(_typed(v, opt["xty"]) * unit if unit is not None else _typed(v, opt["xty"])) for v in spec["tvals"]]
+        pairs = list(zip(tkeys, vals))
+        if perm in ("reversed", "alias"):
             pairs = pairs[::-1]
         elif perm == "rotated":
             pairs = pairs[1:] + pairs[:1]
         elif perm == "extra":
             pairs = [("Na+", vals[1] * 3)] + pairs[::-1] + [("Cl-", vals[0] * 5)]
         cont = [v for k, v in pairs] if perm == "list" else OrderedDict(pairs)
-        tab = as_per_substance_html_table(cont, substances)
-        row = tab.rows[spec["row"]]
+        if perm == "nosubst":
+            # no substances mapping: the rows follow the container (keys are formulas)
+            pairs = pairs[1:] + pairs[:1]
+            cont = OrderedDict(pairs)
+            tab = as_per_substance_html_table(cont, header="c")
+            order = [k for k, v in pairs]
+        else:
+            tab = as_per_substance_html_table(cont, substances)
+            order = list(tkeys)
+        want_key = tkeys[spec["row"]]
+        ri = order.index(want_key)
+        row = tab.rows[ri] if ri < len(tab.rows) else (None, "no-such-row")
         label, txt = row[0], row[1]
-        if len(tab.rows) != len(TABLE_KEYS) or label != substances[TABLE_KEYS[spec["row"]]].html_name:
+        if len(tab.rows) != len(TABLE_KEYS) or label != substances[want_key].html_name:
             txt = "row-of-another-substance: %r" % (row,)      # equals no number: TLC rejects it
         utext = _unit_text("html", unit) if unit is not None else ""
         lexkind = "html"
@@ -272,13 +295,19 @@ def _call(spec, evout):
             ugiven = _unit(opt["ucv"]["from"]) if opt["ucv"]["from"] else given
             if given is not None and src == "attr":
                 import quantities as pq
-                txt = f(pq.UncertainQuantity(xv, given, spec["xe"]), **kw)
+                args = (pq.UncertainQuantity(xv, given, spec["xe"]),)
             elif given is not None:
-                txt = f(xv * given, spec["xe"] * ugiven, **kw)
+                args = (xv * given, spec["xe"] * ugiven)
             else:
-                txt = f(xv, spec["xe"], **kw)
+                args = (xv, spec["xe"])
         else:
-            txt = f(xv * given if given is not None else xv, **kw)
+            args = (xv * given if given is not None else xv,)
+        # history: called twice on the same objects - same text, arguments left as they were
+        before = [repr(a) for a in args]
+        txt = f(*args, **kw)
+        again = f(*args, **kw)
+        if again != txt or [repr(a) for a in args] != before:
+            txt = "second-call-differs-or-argument-changed: %r / %r" % (txt, again)
     if which is not None:
         # a rate expression: the numbers written inside it, in order (pre-exponential factor, activation energy)
         found = nc.lex_embedded(txt, lexkind)
@@ -396,7 +425,7 @@ def seeded_specs(rng, n):
                         "unit": "" if frm else unit, "opt": dict(DEFAULT_OPT, impl=True)})
         elif u < 0.615:
             tu = rng.choice(["", "M", "1/s"])
-            topt = dict(DEFAULT_OPT, api="table", impl=True, tbl=rng.choice(["same", "reversed", "rotated", "extra", "list"]),
+            topt = dict(DEFAULT_OPT, api="table", impl=True, tbl=rng.choice(["same", "reversed", "rotated", "extra", "list", "alias", "nosubst"]),
                         uname=tu)
             out += _table_specs({"opt": topt, "unit": tu, "from": "", "n": 5}, x, len(out))
         elif u < 0.63 and unit:
@@ -445,7 +474,7 @@ def _opt_of(i):
     o = i.get("opt") or {}
     ucv = o.get("ucv") or {}
     return {"api": o.get("api", "number"), "impl": bool(o.get("impl", False)), "fsty": o.get("fsty", "g"),
-            "xty": o.get("xty", "float"), "uname": o.get("uname", ""), "tbl": o.get("tbl", ""),
+            "xty": o.get("xty", "float"), "uname": o.get("uname", ""), "tbl": o.get("tbl", ""), "pset": o.get("pset", ""),
             "ucv": {"from": ucv.get("from", ""), "to": ucv.get("to", "")}}
 
 
@@ -577,7 +606,8 @@ NEED = {
     "roman": ["roman"],
     "conv": ["-conv", "-attr", "-arg", "num-", "unc-", "-ratio"],
     "opts": ["-impl", "-e", "-int", "-npfloat", "-nparray", "-npint", "-rxnstring", "-ucv", "roman", "-conv", "-ratio", "-uq",
-             "-table-same", "-table-reversed", "-table-rotated", "-table-extra", "-table-list"],
+             "-table-same", "-table-reversed", "-table-rotated", "-table-extra", "-table-list", "-table-alias",
+             "-table-nosubst", "-unitfmt", "-sep", "-named"],
 }
 
 
